@@ -44,6 +44,9 @@ func c20Alphabet() []jsCall {
 	return []jsCall{
 		{Name: "a+1", JS: "a+1", Args: []interface{}{"a", int64(1)}, Want: "2"},
 		{Name: "typeof-a-unset", JS: "typeof a", Want: `"undefined"`},
+		// ONE script text called with two different sets of argument names of the same size
+		{Name: "same-script-given-a", JS: "typeof a + '/' + typeof b", Args: []interface{}{"a", int64(1)}, Want: `"number/undefined"`},
+		{Name: "same-script-given-b", JS: "typeof a + '/' + typeof b", Args: []interface{}{"b", "s"}, Want: `"undefined/string"`},
 		{Name: "typeof-a-string", JS: "typeof a", Args: []interface{}{"a", "s"}, Want: `"string"`},
 		{Name: "a+b", JS: "a+b", Args: []interface{}{"a", 1.5, "b", true}, Want: "2.5"},
 		{Name: "arg-named-JSON", JS: "typeof JSON", Args: []interface{}{"JSON", "x"}, Want: `"string"`},
@@ -402,7 +405,7 @@ func init() {
 	core.Register(&core.Prop{
 		ID:    "C20",
 		Level: "model_checking",
-		Rule:  "E3: a Transform whose schema calls javascript / javascript_with_context anchored on the record, its parent and its grandparent (directly, inside an object moved to the parent, and with arguments read through the ancestor) over every record sequence of length 2..3 (thorough 4) over {A, B, C, failing F}: every result equals the record transformed alone; E0: a value-mapping table of 190 scripts (numbers incl. -0 / 2^53 / MAX_VALUE, every way to produce NaN, +Infinity and -Infinity, null, undefined, thrown values; strings; booleans; nested arrays / objects; typed arguments), each alone and inside 4 call histories on pooled VMs, against the JSON value the property prescribes (or, where it prescribes none, against the isolated call); E1: every history of up to 3 (thorough 4) calls over a 34-symbol alphabet (arguments of every kind, argument named like a built-in, all result kinds, NaN/Infinity/null/undefined/throw/syntax error/odd argument count, IIFE locals, javascript_with_context on the record node, on an ancestor whose children change, and after the record node was released and re-acquired) x every VM-pool answer (reuse/fresh) at every Get; every call's result must equal the same call made in isolation on a fresh VM with all caches disabled, and the expected value of a table (states = distinct (history prefix) outcome vectors, transitions = calls). E2: two threads x two calls from the alphabet under the cooperative scheduler (yield at every VM-pool / cache operation), all schedules with <= 2 preemptions; plus a free-running -race pass; symbols also: shared flat / nested arguments changed in place, top-level declarations; value table incl. results holding one container twice; E3b a failing call under xpath_dynamic and as a plain value; calls reaching _node through this[...], eval of an argument, a unicode escape (absolute oracle: the record's serial number)",
+		Rule:  "E3: a Transform whose schema calls javascript / javascript_with_context anchored on the record, its parent and its grandparent (directly, inside an object moved to the parent, and with arguments read through the ancestor) over every record sequence of length 2..3 (thorough 4) over {A, B, C, failing F}: every result equals the record transformed alone; E0: a value-mapping table of 190 scripts (numbers incl. -0 / 2^53 / MAX_VALUE, every way to produce NaN, +Infinity and -Infinity, null, undefined, thrown values; strings; booleans; nested arrays / objects; typed arguments), each alone and inside 4 call histories on pooled VMs, against the JSON value the property prescribes (or, where it prescribes none, against the isolated call); E1: every history of up to 3 (thorough 4) calls over a 46-symbol alphabet (arguments of every kind, one script text with two argument-name sets of the same size, argument named like a built-in, all result kinds, NaN/Infinity/null/undefined/throw/syntax error/odd argument count, IIFE locals, javascript_with_context on the record node, on an ancestor whose children change, and after the record node was released and re-acquired) x every VM-pool answer (reuse/fresh) at every Get; every call's result must equal the same call made in isolation on a fresh VM with all caches disabled, and the expected value of a table (states = distinct (history prefix) outcome vectors, transitions = calls). E2: two threads x two calls from the alphabet under the cooperative scheduler (yield at every VM-pool / cache operation), all schedules with <= 2 preemptions; plus a free-running -race pass; symbols also: shared flat / nested arguments changed in place, top-level declarations; value table incl. results holding one container twice; E3b a failing call under xpath_dynamic and as a plain value; calls reaching _node through this[...], eval of an argument, a unicode escape (absolute oracle: the record's serial number)",
 		Assumptions: []string{
 			"scripts that assign globals themselves are excluded by the property; top-level scripts of the alphabet are pure expressions or IIFEs",
 			"the isolated reference call uses the library's own 'caching disabled' path (fresh goja VM, no program / node-JSON cache)",
